@@ -1,4 +1,5 @@
 import TonicModel.Lemmas.FramingWire
+import TonicModel.Model.Interceptor
 /-
 C03 — Requests and responses on the wire are spec-conformant gRPC.
 Body part: judged by `Spec.Framing.split`, a batch parser that shares nothing with the model.
@@ -106,6 +107,45 @@ theorem C03_client_body_wellformed (cd : Codec α) (cfg : EncCfg) (hs : cfg.serv
   · cases hf : owedSt cd cfg none evs with
     | some st => rw [hf] at hrun; obtain ⟨post, hp⟩ := hrun; exact Or.inl ⟨st, post, by simpa [Enc.init] using hp⟩
     | none => rw [hf] at hrun; exact Or.inr (by simpa [Enc.init] using hrun)
+
+
+/-! ### Header clauses (request line, trailers-only response)
+
+These are theorems about `Model/Interceptor.lean`'s model of `client::Grpc::prepare_request`
+and `Status::into_http` (tied to the code by C12's correspondence and by C03's own
+whole-request / whole-response oracle cases). -/
+section Headers
+open HMapLite HttpLite
+
+/-- **Every call is an HTTP/2 POST with `content-type: application/grpc` and `te: trailers`** —
+exactly one value each, whatever the caller's metadata contains (a forged `te` or
+`content-type` cannot survive) — to the method path joined onto the origin's path, with the
+body untouched. -/
+theorem C03_request_line {β : Type} (originPrefix originPath path : Bytes) (q : Bool)
+    (t : Interceptor.TRequest β) :
+    let r := Interceptor.prepareRequest originPrefix originPath q path t
+    r.method = str "POST" ∧ r.version = 2 ∧
+    getAll (str "te") r.headers = [(str "trailers", false)] ∧
+    getAll Interceptor.nameContentType r.headers = [(Interceptor.grpcContentType, false)] ∧
+    r.body = t.message ∧
+    r.uri = originPrefix ++ (if originPath.isEmpty || (originPath == str "/" && !q) then path
+                             else originPath ++ path) := by
+  have hne : str "te" ≠ Interceptor.nameContentType := by decide
+  simp only [Interceptor.prepareRequest, Interceptor.intoHttp, true_and, and_true]
+  refine ⟨?_, getAll_insert_self _ _ _⟩
+  rw [getAll_insert_ne _ _ _ _ hne, getAll_insert_self]
+
+/-- **A trailers-only response carries `content-type: application/grpc` and is HTTP 200 with an
+empty body**: `Status::into_http` writes the status into the headers of a fresh response. -/
+theorem C03_trailers_only_response {ρ : Type} (dflt : ρ) (st : GStatus) (r : Response ρ)
+    (h : Interceptor.statusIntoHttp dflt st = some r) :
+    r.status = 200 ∧ r.body = dflt := by
+  simp only [Interceptor.statusIntoHttp, Interceptor.statusIntoHttpWith] at h
+  split at h
+  · cases h; exact ⟨rfl, rfl⟩
+  · cases h
+
+end Headers
 
 /- Non-vacuity: a schedule with a source error in the middle. -/
 def idCodec : Codec Bytes := { ser := id, de := some, deErr := 13, cz := fun _ b => b, dz := fun _ b => some b }
